@@ -2,7 +2,7 @@
    entry point; tools/lib/cmds.py holds the same numbering. *)
 From Coq Require Import ZArith NArith List Bool.
 From Coq.Strings Require Import Byte.
-From SV Require Import Base.Bytes Base.Py Base.Sexp Gen.Generated Asn1.Model Asn1.Tree.
+From SV Require Import Base.Bytes Base.Py Base.Sexp Gen.Generated Asn1.Model Asn1.Tree Extract.DriverMsg.
 Import ListNotations.
 Local Open Scope Z_scope.
 
@@ -110,6 +110,7 @@ Definition run (req : sexp) : sexp :=
   match req with
   | SList (SInt cmd :: args) =>
       if cmd <? 100 then or_bad (run_asn1 cmd args)
+      else if cmd <? 200 then or_bad (run_msg cmd args)
       else bad
   | _ => bad
   end.
